@@ -345,3 +345,79 @@ def r01f(ctx, rep, rule="R01f"):
                 text, ", ".join(dup)), [path], detail={"expansion": repr(core)[:600]})
         else:
             rep.ok(rule, key, "%s: every sub-expression is kept exactly once and no operand is in tail position" % name, [path])
+
+
+def scopes(core, env=frozenset(), out=None):
+    """marker -> set of variables bound by enclosing lambdas at the marker's position (core forms only)"""
+    out = out if out is not None else {}
+    if isinstance(core, Sym):
+        if core.startswith("%"):
+            out.setdefault(str(core), set()).update(env)
+        return out
+    if isinstance(core, tuple) or not isinstance(core, list) or not core:
+        return out
+    head = core[0]
+    if head == "quote":
+        return out
+    if isinstance(head, Sym) and head in ("lambda", "λ") and len(core) >= 2:
+        formals = core[1]
+        names = set()
+        if isinstance(formals, list):
+            names = {str(x) for x in formals if isinstance(x, Sym) and x != "."}
+        elif isinstance(formals, Sym):
+            names = {str(formals)}
+        inner = frozenset(env | names)
+        for e in core[2:]:
+            scopes(e, inner, out)
+        return out
+    for e in core:
+        scopes(e, env, out)
+    return out
+
+
+# (instance, {marker: (must be in scope, must NOT be in scope)})  — R7RS 4.2.2 / 4.2.4
+SCOPE_INSTANCES = [
+    ("let", "(let ((x %I1) (y %I2)) %B1)", {"%I1": ((), ("x", "y")), "%I2": ((), ("x", "y")), "%B1": (("x", "y"), ())}),
+    ("let*", "(let* ((x %I1) (y %I2)) %B1)", {"%I1": ((), ("x", "y")), "%I2": (("x",), ("y",)), "%B1": (("x", "y"), ())}),
+    ("letrec", "(letrec ((f %I1) (g %I2)) %B1)", {"%I1": (("f", "g"), ()), "%I2": (("f", "g"), ()), "%B1": (("f", "g"), ())}),
+    ("letrec*", "(letrec* ((f %I1) (g %I2)) %B1)", {"%I1": (("f", "g"), ()), "%I2": (("f", "g"), ()), "%B1": (("f", "g"), ())}),
+    ("named let", "(let loop ((i %I1) (j %I2)) %B1)", {"%I1": ((), ("loop", "i", "j")), "%I2": ((), ("loop", "i", "j")),
+                                                        "%B1": (("loop", "i", "j"), ())}),
+]
+
+
+def r01g(ctx, rep, rule="R01g"):
+    rep.rule(rule, "binding constructs of the prelude scope their sub-expressions as R7RS 4.2.2 / 4.2.4 prescribe: in the "
+             "core expansion of a schematic instance, each initialiser and the body see exactly the variables they should — "
+             "let initialisers see none of the new variables, let* initialisers the earlier ones, letrec initialisers all, "
+             "and the initialisers of a named let see neither the loop tag nor the loop variables.")
+    try:
+        macros, forms, path = load_macros(ctx["root"])
+    except (OSError, IndexError) as e:
+        rep.anchor_lost(rule, "marwood/prelude.scm unreadable: %s" % e)
+        return
+    for name, text, want in SCOPE_INSTANCES:
+        core = expand(S(text), macros)
+        if "no-rule" in repr(core):
+            rep.fail(rule, "%s|%s" % (rule, name), "no prelude rule matches (a sub-form of) %s" % text, [path])
+            continue
+        sc = scopes(core)
+        bad = []
+        for m, (must, mustnot) in want.items():
+            got = sc.get(m)
+            if got is None:
+                bad.append("%s is dropped" % m)
+                continue
+            miss = [v for v in must if v not in got]
+            leak = [v for v in mustnot if v in got]
+            if miss:
+                bad.append("%s does not see %s" % (m, ", ".join(miss)))
+            if leak:
+                bad.append("%s is inside the scope of %s" % (m, ", ".join(leak)))
+        key = "%s|%s" % (rule, name)
+        if bad:
+            rep.fail(rule, key, "in %s: %s — a name in an initialiser (or the body) denotes a different binding than R7RS "
+                     "prescribes when it coincides with a variable of the form" % (text, "; ".join(bad)), [path],
+                     detail={"expansion": repr(core)[:600]})
+        else:
+            rep.ok(rule, key, "%s: initialisers and body see exactly the prescribed variables" % name, [path])
